@@ -130,6 +130,10 @@ func (m *Model) validateEmp(id string, v map[string]any, old *MEnt, self *MEnt) 
 			}
 			continue
 		}
+		if len(val) > 32768 {
+			errs = append(errs, rej(ExpReject, u.Field+" too large to be an index key"))
+			continue
+		}
 		for oid, o := range es {
 			if oid == id {
 				continue
@@ -146,6 +150,10 @@ func (m *Model) validateEmp(id string, v map[string]any, old *MEnt, self *MEnt) 
 			for _, r := range roles {
 				if r == "" {
 					errs = append(errs, rej(ExpReject, "empty role element"))
+					break
+				}
+				if len(r) > 32767 {
+					errs = append(errs, rej(ExpReject, "role element too large to be a key"))
 					break
 				}
 			}
